@@ -2,7 +2,7 @@
 # validate_seed.sh CNN [tag] — confirm an independently seeded breaking change (worktree /tmp/seed_<tag>, default tag = CNN):
 #   the patch applies to a clean checkout of /repo HEAD, the repository suite still passes with it, the demonstration
 #   passes without and fails with it, and the property's quick check reports it. Keeps it under /verif/seeded/<tag>/.
-P=$1; TAG=${2:-$1}; SRC=/tmp/seed_$TAG/seed; VAL=/tmp/val_$TAG; OUT=/verif/seeded/$TAG
+P=$1; TAG=${2:-$1}; SRCDIR=${3:-/tmp/seed_$TAG}; SRC=$SRCDIR/seed; VAL=/tmp/val_$TAG; OUT=/verif/seeded/$TAG
 set -u
 [ -f $SRC/patch.diff ] || { echo "$TAG: no patch.diff"; exit 2; }
 git -C /repo worktree remove --force $VAL >/dev/null 2>&1; rm -rf $VAL
